@@ -5,7 +5,9 @@
        provenance of the factors really returned (which recorded operator call produced them);
    (f) operator calls recorded INSIDE real runs (initialisation and ADMM iterations of constrained_parafac, admm on its own):
        the operator family of the end-to-end theorems (Model/ConstraintsOps.v op_gen, here at Qops) executed on the recorded
-       input against the recorded output. *)
+       input against the recorded output;
+   (h) admm / proximal_operator with `order` left at None (CAdmmNone / CProxNone), and the stopping rule with its three comparisons computed at
+       exact rationals on the constraint / reconstruction errors recorded in real runs against the number of sweeps executed (CStopNum). *)
 From Coq Require Import List Arith ZArith QArith Qabs Qround Bool.
 From TLV Require Import Base.PyList Base.Tensor Corr.Common.
 From TLV Require Import Model.Constraints Base.Ops Model.Prox Model.ConstraintsOps Model.ConstraintsStop Model.ConstraintsNc.
@@ -122,6 +124,28 @@ Definition model_admm_nc (specs : list (@zspec pv)) (order n_iter : nat) : res p
   else Err.
 Definition model_prox_nc (specs : list (@zspec pv)) (order : nat) : res prov :=
   if Nat.eqb (length specs) 12 then proximal_operator_nc pv_truthy tag_op None (with_names specs) order PvRaw else Err.
+
+(* `order` left at None (Model/ConstraintsNc.v admm_py / proximal_operator_py): admm(n_const=n) without order works on mode 0 (fix a5b9e5b:
+   `if order is None: order = 0`); proximal_operator(n_const=n, order=None) raises, with n_const=None it returns its input *)
+Definition model_admm_none (n : nat) (specs : list (@zspec pv)) (n_iter : nat) : res prov :=
+  if Nat.eqb (length specs) 12 then
+    rbind (admm_py pv_truthy tag_op (fun _ _ => PvRaw) (fun _ _ => PvRaw) (Some n) (with_names specs) None n_iter (fun _ _ => PvRaw)
+                   (fun _ _ _ _ => false) PvOther (PvUser 0) PvRaw)
+          (fun r => Ok (fst (fst r)))
+  else Err.
+Definition model_prox_none (nc : option nat) (specs : list (@zspec pv)) : res prov :=
+  if Nat.eqb (length specs) 12 then proximal_operator_py pv_truthy tag_op nc (with_names specs) None PvRaw else Err.
+
+(* the stopping rule with its comparisons as numbers (Model/ConstraintsStop.v stop_env_num at Qops) on the sequences recorded in a real run:
+   cerrs = constraint_error after each executed sweep, errs = rec_errors (exact rational values of the float64 numbers), tol = tol_outer.
+   The model's loop constrained_cp_c is executed on COUNTERS: every factor starts at 0 (a user initialisation), the operator adds 1, the
+   inner budget is 1 - so the returned counters are the number of sweeps the model executes; expected: Ok [L; ..; L] with L = len(rec_errors)
+   of the real run, or Err where the run raised TypeError (unknown criterion). *)
+Definition model_stop_num (n n_outer : nat) (tol : Q) (c : crit) (cerrs errs : list Q) : res (list nat) :=
+  constrained_cp_c 0%nat (fun _ (_ : unit) (x : nat) => S x) (fun _ => Ok (Some (KNonNeg, tt))) (fun s _ => s) (fun a _ => a)
+                   (mkEnv (fun _ _ (x : nat) _ => x) (fun _ _ _ _ _ _ => false) (fun _ _ _ => false) (fun _ _ => true))
+                   (stop_env_num Qops tol c (fun it => nth it cerrs 0) (fun it => nth it errs 0))
+                   n (IUser (repeat 0%nat n)) [] n_outer 1%nat 0%nat.
 
 (* (e) feasibility of a returned / dispatched factor, decided in Coq on the exact rational value of the float64 entries
    (rows, row-major).  Transcription of the Python predicates of harness/props/C11.py with a LOOSER tolerance (1e-8 instead
@@ -258,6 +282,9 @@ Inductive case :=
 | CProx (id n : nat) (specs : list (@zspec pv)) (order : nat) (expected : res prov)
 | CAdmmNc (id : nat) (specs : list (@zspec pv)) (order n_iter : nat) (expected : res prov)
 | CProxNc (id : nat) (specs : list (@zspec pv)) (order : nat) (expected : res prov)
+| CAdmmNone (id n : nat) (specs : list (@zspec pv)) (n_iter : nat) (expected : res prov)
+| CProxNone (id : nat) (nc : option nat) (specs : list (@zspec pv)) (expected : res prov)
+| CStopNum (id n n_outer : nat) (tol : Q) (c : crit) (cerrs errs : list Q) (expected : res (list nat))
 | CFeas (id : nat) (k : kind) (p : pv) (rows : list (list Q))
 | CCall (id : nat) (k : kind) (p : pv) (aux : Q) (rows out : list (list Q)) (atol rtol : Q).
 
@@ -271,11 +298,14 @@ Definition agree (c : case) : bool :=
   | CProx _ n specs order expected => res_eqb prov_eqb (model_prox n specs order) expected
   | CAdmmNc _ specs order ni expected => res_eqb prov_eqb (model_admm_nc specs order ni) expected
   | CProxNc _ specs order expected => res_eqb prov_eqb (model_prox_nc specs order) expected
+  | CAdmmNone _ n specs ni expected => res_eqb prov_eqb (model_admm_none n specs ni) expected
+  | CProxNone _ nc specs expected => res_eqb prov_eqb (model_prox_none nc specs) expected
+  | CStopNum _ n no tol c cerrs errs expected => res_eqb (list_eqb Nat.eqb) (model_stop_num n no tol c cerrs errs) expected
   | CFeas _ k p rows => feasb k p rows
   | CCall _ k p aux rows out atol rtol => call_agree k p aux rows out atol rtol
   end.
 Definition ident (c : case) : nat :=
-  match c with CTable i _ _ _ => i | CTrace i _ _ _ _ _ _ _ _ _ _ => i | CTraceC i _ _ _ _ _ _ _ _ _ _ _ _ _ => i | CAdmm i _ _ _ _ _ => i | CProx i _ _ _ _ => i | CAdmmNc i _ _ _ _ => i | CProxNc i _ _ _ => i | CFeas i _ _ _ => i | CCall i _ _ _ _ _ _ _ => i end.
+  match c with CTable i _ _ _ => i | CTrace i _ _ _ _ _ _ _ _ _ _ => i | CTraceC i _ _ _ _ _ _ _ _ _ _ _ _ _ => i | CAdmm i _ _ _ _ _ => i | CProx i _ _ _ _ => i | CAdmmNc i _ _ _ _ => i | CProxNc i _ _ _ => i | CAdmmNone i _ _ _ _ => i | CProxNone i _ _ _ => i | CStopNum i _ _ _ _ _ _ _ => i | CFeas i _ _ _ => i | CCall i _ _ _ _ _ _ _ => i end.
 Definition failing := failing_ids agree ident.
 
 (* ------------------------------------------------------------------ (g) static tie: pieces of the model regenerated from the CURRENT
@@ -288,22 +318,26 @@ Definition failing := failing_ids agree ident.
      call), with the `order=` / `n_const=` expressions the model assumes (the loop variable over modes_list / range(ndim); the
      function's own parameter; tl.ndim(tensor)). *)
 Inductive site := SProxToValidate | SAdmmToProx | SInitToProx | SCpToValidate | SCpToInit | SCpToAdmm | SClassToCp | SClassInit.
-Inductive oexp := OParam | OLoopRangeNdim | OLoopModesList | ONone | OOther.
+(* OParamNone0: the function's own parameter `order`, preceded by exactly `if order is None: order = 0` (admm; Model/ConstraintsNc.v order_of);
+   OParam: the own parameter, never re-bound in the function *)
+Inductive oexp := OParam | OLoopRangeNdim | OLoopModesList | ONone | OOther | OParamNone0.
 Inductive nexp := NParam | NNdimTensor | NNone | NOther.
 Inductive scase :=
 | SKinds (id : nat) (vars names : list kind)
 | SDispatch (id : nat) (none_returns_tensor : bool) (tbl : list (kind * dop)) (else_raises : bool)
-| SForward (id : nat) (s : site) (pairs : list (kind * kind)) (o : oexp) (nc : nexp).
+| SForward (id : nat) (s : site) (pairs : list (kind * kind)) (o : oexp) (nc : nexp)
+| SAdmmStart (id : nat) (split_is_transpose_x start_kept returns_x_split_dual : bool).
 
 Definition site_expect (s : site) : oexp * nexp :=
   match s with
-  | SProxToValidate | SAdmmToProx => (OParam, NParam)
+  | SProxToValidate => (OParam, NParam)
+  | SAdmmToProx => (OParamNone0, NParam)
   | SInitToProx => (OLoopRangeNdim, NNdimTensor)
   | SCpToValidate => (ONone, NNdimTensor)          (* order omitted: the default 0 *)
   | SCpToAdmm => (OLoopModesList, NNdimTensor)
   | SCpToInit | SClassToCp | SClassInit => (ONone, NNone)
   end.
-Definition oexp_id (o : oexp) : nat := match o with OParam => 0 | OLoopRangeNdim => 1 | OLoopModesList => 2 | ONone => 3 | OOther => 4 end.
+Definition oexp_id (o : oexp) : nat := match o with OParam => 0 | OLoopRangeNdim => 1 | OLoopModesList => 2 | ONone => 3 | OOther => 4 | OParamNone0 => 5 end.
 Definition nexp_id (o : nexp) : nat := match o with NParam => 0 | NNdimTensor => 1 | NNone => 2 | NOther => 3 end.
 Definition forward_ok (pairs : list (kind * kind)) : bool :=
   Nat.eqb (length pairs) 12 &&
@@ -315,6 +349,9 @@ Definition static_agree (c : scase) : bool :=
   | SDispatch _ none_ok tbl else_raises => none_ok && Nat.eqb (length tbl) 12 && dispatch_ok tbl && else_raises
   | SForward _ s pairs o nc =>
       forward_ok pairs && Nat.eqb (oexp_id o) (oexp_id (fst (site_expect s))) && Nat.eqb (nexp_id nc) (nexp_id (snd (site_expect s)))
+  (* admm before its loop: `x_split = tl.transpose(x)`, x and dual_var untouched, `return x, x_split, dual_var` last - what Model/Constraints.v
+     admm returns for an inner budget of 0: (x, x, dual) with s standing for transpose(x_split) *)
+  | SAdmmStart _ a b c => a && b && c
   end.
-Definition sident (c : scase) : nat := match c with SKinds i _ _ => i | SDispatch i _ _ _ => i | SForward i _ _ _ _ => i end.
+Definition sident (c : scase) : nat := match c with SKinds i _ _ => i | SDispatch i _ _ _ => i | SForward i _ _ _ _ => i | SAdmmStart i _ _ _ => i end.
 Definition failing_static := failing_ids static_agree sident.
